@@ -202,8 +202,9 @@ func prepareReassembly(bs []Bundle) error {
 			return fmt.Errorf("next fragment starts at offset %d, gap from %d to %d", fragOff, lastIndex, fragOff)
 		} else if payloadBlock, err := b.PayloadBlock(); err != nil {
 			return err
-		} else {
-			lastIndex = fragOff + uint64(len(payloadBlock.Value.(*PayloadBlock).Data()))
+		} else if fragEnd := fragOff + uint64(len(payloadBlock.Value.(*PayloadBlock).Data())); fragEnd > lastIndex {
+			// Fragments might overlap or even be contained in a previous one.
+			lastIndex = fragEnd
 		}
 	}
 
@@ -236,6 +237,11 @@ func mergeFragmentPayload(bs []Bundle) (data []byte, err error) {
 			return
 		}
 		fragPayloadData = fragPayloadBlock.Value.(*PayloadBlock).Data()
+
+		if fragStartIndex+len(fragPayloadData) <= lastIndex {
+			// This fragment's payload is already completely covered by the previous fragments.
+			continue
+		}
 
 		data = append(data, fragPayloadData[lastIndex-fragStartIndex:]...)
 		lastIndex = fragStartIndex + len(fragPayloadData)
